@@ -222,11 +222,11 @@ theorem exec_ctrl (np n nc : Nat) (det : Bool) (st : Noise.DmSt) (h : HState n) 
   constructor
   · obtain ⟨u, eu, ru⟩ := rep_getTwoQubitControlledGate n _ _ hc1 hc2 hne _ _ rep2_sigmax
     obtain ⟨m', e, r⟩ := rep_applyUnitary_one hrep ru
-    rw [← ctrlG_eq n _ _ hc1 hne] at r
+    rw [← ctrlG_eq n _ _ hc1 hc2 hne] at r
     exact ⟨{ st with ρ := some m' }, by simp only [Noise.dmGate, hm, eu, e, Except.map], m', rfl, r, hc⟩
   · obtain ⟨u, eu, ru⟩ := rep_getTwoQubitControlledGate n _ _ hc1 hc2 hne _ _ rep2_sigmaz
     obtain ⟨m', e, r⟩ := rep_applyUnitary_one hrep ru
-    rw [← ctrlG_eq n _ _ hc1 hne] at r
+    rw [← ctrlG_eq n _ _ hc1 hc2 hne] at r
     exact ⟨{ st with ρ := some m' }, by simp only [Noise.dmGate, hm, eu, e, Except.map], m', rfl, r, hc⟩
 
 theorem exec_measZ (np n nc : Nat) (det : Bool) (st : Noise.DmSt) (h : HState n) (hst : RepSt n nc st h)
